@@ -129,8 +129,11 @@ class GStore(QueueStorage):
         c.content2id.setdefault(content_key(envelope), sid)
         c.keep.append(envelope)
         c.stored.add(sid)
+        import re as _re
+        mm = _re.match(r's(\d+)@x$', envelope.sender or '')
         c.log(t='store', op='write', id=sid, ts=int(timestamp), n=len(envelope.recipients),
-              sender=1 if envelope.sender else 0, bounce=1 if isinstance(envelope, Bounce) else 0, now=c.now())
+              sender=1 if envelope.sender else 0, bounce=1 if isinstance(envelope, Bounce) else 0,
+              msg=int(mm.group(1)) if mm and not isinstance(envelope, Bounce) else 0, now=c.now())
         return raw
 
     def _raw(self, sid_or_raw):
@@ -598,9 +601,16 @@ class Scenario(object):
             n += 1
         rp, sp = self.cfg.get('relay_pool'), self.cfg.get('store_pool')
         full = bool((rp and len(self.q.relay_pool) >= rp) or (sp and len(self.q.store_pool) >= sp))
+        # the queue's own bookkeeping, where it can be read (optional fields: a refactoring may remove the attributes)
+        internals = {}
+        try:
+            internals = {'tq': [[int(ts), c.sid(i)] for ts, i in self.q.queued], 'qids': sorted(c.sid(i) for i in self.q.queued_ids),
+                         'act': sorted(c.sid(i) for i in self.q.active_ids)}
+        except Exception:  # noqa
+            internals = {}
         c.log(t='quiesce', now=c.now(), parked_store=sum(1 for s in c.parked if s['kind'] == 'store'),
               inflight=sorted(c.inflight), timers=[int(d) for d in CLOCK.deadlines()], stored=sorted(c.stored),
-              poolfull=full)
+              poolfull=full, **internals)
 
     def run(self, chooser, max_steps=60, drain_outcome=None, drain_steps=200):
         """chooser(step, options) -> index or None (= stop deciding, drain)"""
